@@ -27,7 +27,7 @@ def trs2llh(trs: np.ndarray, ellipsoid: Ellipsoid = None) -> np.ndarray:
     if ellipsoid is None:
         ellipsoid = trs.ellipsoid if hasattr(trs, "ellipsoid") else GRS80
 
-    trs = nputil.HashArray(trs)
+    trs = nputil.HashArray(np.asarray(trs, dtype=float))  # never compute in a narrower input dtype
     if trs.ndim < 1 or trs.ndim > 2 or trs.shape[-1] != 3:
         raise ValueError("'trs' must be a 1- or 2-dimensional array with 3 columns")
 
@@ -104,7 +104,7 @@ def llh2trs(llh: np.ndarray, ellipsoid: Ellipsoid = None) -> np.ndarray:
     if ellipsoid is None:
         ellipsoid = llh.ellipsoid if hasattr(llh, "ellipsoid") else GRS80
 
-    llh = nputil.HashArray(llh)
+    llh = nputil.HashArray(np.asarray(llh, dtype=float))  # never compute in a narrower input dtype
     if llh.ndim < 1 or llh.ndim > 2 or llh.shape[-1] != 3:
         raise ValueError("'llh' must be a 1- or 2-dimensional array with 3 columns")
 
